@@ -4,6 +4,7 @@ import (
 	"bytes"
 	"context"
 	"fmt"
+	"google.golang.org/grpc/metadata"
 	"math"
 	"math/big"
 	"net/http"
@@ -225,6 +226,9 @@ func propCase(c, out map[string]interface{}) map[string]interface{} {
 		ctx, cancel = context.WithDeadline(ctx, cd)
 	}
 	defer cancel()
+	if to, ok := c["mdto"].(string); ok && to != "" {
+		ctx = metadata.NewOutgoingContext(ctx, metadata.Pairs("grpc-timeout", to, "k-other", "v"))
+	}
 	if c["kind"] == "unary" {
 		_ = ch.Invoke(ctx, "/verif.Svc/U", &gt.Message{}, &gt.Message{})
 	} else {
